@@ -27,10 +27,11 @@ type eRow struct {
 	rdc  string // garbage num special
 	n, k int
 	text string // rendering
+	s    string // class bigint: the integer reading as a decimal string
 }
 
 func (r eRow) abs() hx.J {
-	return hx.J{"nf": r.nf, "ts": hx.J{"c": r.tsc, "slot": r.slot}, "rd": hx.J{"c": r.rdc, "n": r.n, "k": r.k}}
+	return hx.J{"nf": r.nf, "ts": hx.J{"c": r.tsc, "slot": r.slot}, "rd": hx.J{"c": r.rdc, "n": r.n, "k": r.k, "s": r.s}}
 }
 
 func runEnergy(c *ctx) error {
@@ -155,13 +156,22 @@ func runEnergy(c *ctx) error {
 		out := []hx.J{}
 		for _, r := range recs {
 			v := int64(r.Energy)
-			val := hx.J{"c": "big", "n": 0}
+			val := hx.J{"c": "big", "n": 0, "s": fmt.Sprint(v)}
 			if v > -(1<<30) && v < 1<<30 {
 				val = hx.J{"c": "v", "n": int(v)}
 			}
 			out = append(out, hx.J{"slot": hx.Clamp30(uint64(r.Timeslot)), "val": val})
 		}
 		t.Emit(hx.J{"a": "Read", "rows": abs, "mult": cal[0], "div": cal[1], "recs": out, "err": rerr != nil, "panic": p, "text": sb.String()})
+	}
+	// integers of many digits under the calibration 1000/1000: the record carries the full 64-bit value
+	{
+		var rows []eRow
+		for i, v := range []int64{3000000000, 4294967297, -2147483649, 2147483648, -4294967296, 1 << 40, -(1 << 45), 1<<53 - 1} {
+			rows = append(rows, eRow{nf: 2, tsc: "ok", slot: 10 + i, rdc: "bigint", s: fmt.Sprint(v), text: fmt.Sprintf("%d,%d", G+int64(10+i)*300+3, v)})
+		}
+		read(rows, false, [2]int{1000, 1000})
+		read(rows[:3], true, [2]int{-1, -1})
 	}
 	// directed: the first row decides the field count
 	one := func(tsc, text string, slot int) eRow {
